@@ -302,6 +302,24 @@ def build_dm(flavour):
     return exe, libs
 
 
+def build_rt(flavour):
+    b = Builder(flavour)
+    srcs = RUNTIME + HAL_MANAGER + HAL_DEVICES + CORE_PROPS + CORE_PLATFORM + CORE_LOGGER
+    objs = b.objs(srcs) + b.objs([harness("rt_harness.c")])
+    exe = b.exe("rt_harness", objs, wrap("video_sink_init", "video_filter_init", "thread_create", "condition_variable_wait",
+                                         "channel_write_map", "channel_write_unmap", "channel_read_map", "channel_read_unmap")
+                + ["-rdynamic"], subdir="rt")
+    common = build_driver_common_so(flavour)
+    d = os.path.dirname(exe)
+    tgt = os.path.join(d, "libacquire-driver-common.so")
+    if not os.path.exists(tgt) or os.path.getmtime(tgt) < os.path.getmtime(common) or os.path.getsize(tgt) != os.path.getsize(common):
+        tmp = tgt + ".tmp%d" % os.getpid()
+        shutil.copy2(common, tmp)
+        os.replace(tmp, tgt)
+    b.shared("libacquire-driver-hdcam.so", b.objs([harness("rt_mockdrv.c")]), subdir="rt")
+    return exe
+
+
 TARGETS = {
     "chan": build_chan,
 }
